@@ -53,6 +53,11 @@ CHECKS = {
    text="Each k-means fit of the real code is judged in f64: shape/finiteness/bounding box, predict = admissible arg-min and transform = minimal reduced distance (training, fresh and tie points), every iterate of a trajectory equals the documented update of the previous one with counts/inertia of that assignment, L2 cost non-increasing, more restarts never raise the inertia, counts describe the returned centroids. All multisets over small lattices x every k x every ordered choice of initial rows are enumerated.",
    note="Trusts the harness distance/update arithmetic; ties are resolved by enumerating admissible assignments (<= 4096, else inconclusive). The cost increase of the mean update under non-L2 metrics is a recorded known finding with a discriminating signature; k-means|| is judged per model only.",
    ref="DESIGN.md §5 C09"),
+ "C10": dict(
+   technique="runtime monitor: validity oracle of the published mixture in f64 (weights, bounding box, symmetric PD covariances via own Cholesky/Jacobi, precision*covariance = I, moment identities) and per-query probability oracle (finite, non-negative, rows sum to 1, label = arg-max, posterior of the published mixture) on queries 10..1e6 sigmas away incl. far decision boundaries; exhaustive small 1-D scope",
+   text="Every successful GMM fit of the real code (random, hostile and degenerate datasets, both initialisers, f32/f64) is judged: parameter validity conditions from the property, and membership probabilities / predicted component on training rows, means, and rows at controlled sigma-distances (incl. the radii where exponentials underflow) in four memory layouts. All multisets of up to 5 (7) values from {0,1,2,3} x K x initialiser x regularisation are enumerated.",
+   note="Trusts the harness mixture evaluation (max-shifted posterior, own Cholesky). Fit errors are inconclusive, panics violations. Posterior comparison and moment identities go beyond the literal text (own signatures). Rows whose squared distance overflows the element type are not generated.",
+   ref="DESIGN.md §5 C10"),
 }
 
 NOT_YET = {}
